@@ -80,6 +80,8 @@ type AwsSim struct {
 	refreshFail                        bool
 	describeAsRefresh                  int // number of upcoming DescribeAutoScalingGroups calls that are provider refreshes
 	journalSink                        *Journal
+	curIdx                             int           // scan engine: 1-based index of the node group being scanned
+	curGroup                           func() string // scan engine: ASG name of the node group being scanned
 }
 
 func NewAwsSim(groups []SimASG) *AwsSim {
@@ -92,6 +94,17 @@ func NewAwsSim(groups []SimASG) *AwsSim {
 	}
 	s.ResetCounters()
 	return s
+}
+
+// snapshotGroups returns the current (real) state of every simulated ASG, in registration order.
+func (s *AwsSim) snapshotGroups() []SimASG {
+	out := []SimASG{}
+	for _, n := range s.order {
+		g := *s.groups[n]
+		g.Instances = append([]SimInst(nil), g.Instances...)
+		out = append(out, g)
+	}
+	return out
 }
 
 func (s *AwsSim) ResetCounters() {
@@ -392,6 +405,9 @@ func (m simEC2) DescribeInstances(in *ec2.DescribeInstancesInput) (*ec2.Describe
 		id = awsapi.StringValue(in.InstanceIds[0])
 	}
 	gname := s.groupOfInstance(id)
+	if gname == "" && s.curGroup != nil {
+		gname = s.curGroup() // an instance no ASG knows: the answer follows the oracle of the group being scanned
+	}
 	fail := s.orc(gname).DescInstFail
 	s.log(AwsCall{Kind: "DescribeInstances", Group: gname, Inst: id, OK: !fail})
 	if fail {
